@@ -53,6 +53,10 @@ type Ctx struct {
 	Emu     Emu
 	// Touched records which keyword groups were evaluated on a non-trivial instance (coverage evidence).
 	Touched map[string]int
+	// RequiredSatisfiedByDefault makes "required" accept an absent member whose property schema (in the same
+	// schema object) declares a default: the library's documented Swagger rule ("if a default value is
+	// defined, creates the property from defaults"). Used by C18/C19 only, where defaults are generated.
+	RequiredSatisfiedByDefault bool
 	// Unresolved is set when a $ref could not be resolved.
 	Unresolved bool
 	depth      int
@@ -645,6 +649,9 @@ func (c *Ctx) objectOK(s map[string]any, inst map[string]any) bool {
 		for _, r := range req {
 			if k, isStr := r.(string); isStr {
 				if _, present := inst[k]; !present {
+					if c.RequiredSatisfiedByDefault && c.propertyHasDefault(s, k) {
+						continue
+					}
 					valid = false
 				}
 			}
@@ -722,6 +729,18 @@ func (c *Ctx) objectOK(s map[string]any, inst map[string]any) bool {
 		}
 	}
 	return valid
+}
+
+// propertyHasDefault tells whether properties[k] of s declares a non-null default. The library looks at the
+// property schema as it stands when the object validator is built: a bare, not yet expanded $ref has none.
+func (c *Ctx) propertyHasDefault(s map[string]any, k string) bool {
+	props, _ := s["properties"].(map[string]any)
+	ps, _ := props[k].(map[string]any)
+	if ps == nil {
+		return false
+	}
+	d, has := ps["default"]
+	return has && d != nil
 }
 
 // Canon renders a raw JSON value canonically (sorted keys, numbers as given).
